@@ -602,3 +602,13 @@ Proof.
   intros ch Hch. destruct Hc as (_&_&_&_&_&_&_&_&_&_&Hchain). unfold chain_ok in Hchain.
   rewrite Hch in Hchain. apply Hchain.
 Qed.
+
+(** the summaries of the voting and next-round views in every reachable state *)
+Lemma reachable_summaries ih ivs s : 1 <= ih -> vs_ok ivs = true -> reachable_b ih ivs s ->
+  (sm_avail (v_sum (k_vot s)) = sum_pows (vs_pows (v_vals (k_vot s))) /\
+   sm_pcp (v_sum (k_vot s)) = blocks (vs_pows (v_vals (k_vot s))) (v_pc (k_vot s))) /\
+  (sm_avail (v_sum (k_nxt s)) = sum_pows (vs_pows (v_vals (k_nxt s))) /\
+   sm_pcp (v_sum (k_nxt s)) = blocks (vs_pows (v_vals (k_nxt s))) (v_pc (k_nxt s))).
+Proof.
+  intros Hi Hok Hr. destruct (reachable_INV ih ivs s Hi Hok Hr) as (_&_&S&_). exact S.
+Qed.
